@@ -1,6 +1,8 @@
 // c17_queue: BarQueueAfter on the real package, no hooks.
-//   late: the successor is created after its predecessor's final frame was flushed
-//   two : two bars are queued after the same predecessor
+//
+//	late: the successor is created after its predecessor's final frame was flushed
+//	two : two bars are queued after the same predecessor
+//
 // In both cases a queued bar is parked for ever, is never displayed, and in an
 // auto-refreshing container Progress.Wait never returns.
 package main
